@@ -58,6 +58,8 @@ type c07Case struct {
 	EmptyAt  int    `json:"empty_at"`
 	ErrAt    int    `json:"err_at"`
 	Prog     int    `json:"prog"`
+	RS2      string `json:"rs2,omitempty"` // prog 5: the RS assigned after record At
+	At       int    `json:"at,omitempty"`
 	Spec     bool   `json:"spec"`
 	Kind     string `json:"kind"`
 }
@@ -74,6 +76,8 @@ var c07Progs = []string{
 	// command readers: the child's standard output is the chunked reader
 	`BEGIN { while (("src" | getline line) > 0) { n++; obs(n, n, line, RT) } }`,
 	`BEGIN { while (("src" | getline) > 0) { n++; obs(n, n, $0, RT) } }`,
+	// RS assigned in mid-input (after record number `at`)
+	`{ obs(NR, FNR, $0, RT) } NR == at { RS = rs2 }`,
 }
 
 // c07World hands the chunked reader to the interpreter as the standard output
@@ -109,7 +113,10 @@ func (r *c07Runner) run(cs c07Case) ([]c07Rec, awk.Result) {
 	rd.ErrAt = cs.ErrAt
 	rd.Err = errBoom
 	cfg := &interp.Config{Stdin: rd, Vars: []string{"RS", cs.RS}, Funcs: r.funcs}
-	if cs.Prog >= 3 {
+	if cs.Prog == 5 {
+		cfg.Vars = append(cfg.Vars, "rs2", cs.RS2, "at", fmt.Sprint(cs.At))
+	}
+	if cs.Prog == 3 || cs.Prog == 4 {
 		cfg.Stdin = strings.NewReader("")
 		vexp.SetWorld(&vexp.World{Impl: &c07World{rd}})
 		defer vexp.SetWorld(nil)
@@ -191,6 +198,9 @@ func c07Check(c *core.Ctx, r *c07Runner, cs c07Case, ref *string) {
 	c.Eval(1)
 	obs := c07Fmt(recs)
 	sigBase := fmt.Sprintf("rs=%q", cs.RS)
+	if cs.Prog == 5 {
+		sigBase = fmt.Sprintf("rs=%q->%q", cs.RS, cs.RS2)
+	}
 	if res.Panic != "" {
 		c.Fail("panic "+sigBase, cs, "panic: "+firstLine(res.Panic))
 		return
@@ -216,7 +226,7 @@ func c07Check(c *core.Ctx, r *c07Runner, cs c07Case, ref *string) {
 		}
 	}
 	// (1) specification splitter
-	if cs.Spec {
+	if cs.Spec && cs.Prog != 5 {
 		want, wantRT, haveRT := c07Spec(cs.Kind, cs.RS, cs.Input)
 		bad := len(want) != len(recs)
 		if !bad {
@@ -240,7 +250,11 @@ func c07Check(c *core.Ctx, r *c07Runner, cs c07Case, ref *string) {
 		}
 	}
 	// (2) reconstruction equations
-	switch cs.Kind {
+	kind := cs.Kind
+	if cs.Prog == 5 {
+		kind = "" // two separators in one input: only the differential oracle applies
+	}
+	switch kind {
 	case "regex":
 		var b strings.Builder
 		for _, rc := range recs {
@@ -339,7 +353,7 @@ func c07Run(c *core.Ctx) {
 				}
 				if n >= 1 && n <= 4 {
 					// other reading paths (getline var / getline), one empty read and one read error at every position
-					for prog := 1; prog < len(c07Progs); prog++ {
+					for prog := 1; prog <= 4; prog++ {
 						for mask := uint64(0); mask < nmasks; mask++ {
 							cs := c07Case{RS: st.RS, Input: in, Mask: mask, EOFStyle: 0, EmptyAt: -1, ErrAt: -1, Prog: prog, Spec: st.Spec, Kind: st.Kind}
 							c07Check(c, r, cs, &ref)
@@ -362,7 +376,54 @@ func c07Run(c *core.Ctx) {
 			})
 		}
 	}
+	c07Changes(c, r, maxLen)
 	c07Long(c, r)
+}
+
+// c07Changes: RS is assigned by the program after record 1 or 2. What the
+// records then are is fixed by the input and the program alone (the splitter
+// is asked for one record at a time), so every chunking must give the records
+// of the unchunked delivery. Pairs cover literal -> growable regex, regex ->
+// regex, and the splitter kinds that are fixed when the input is opened.
+func c07Changes(c *core.Ctx, r *c07Runner, maxLen int) {
+	type pair struct {
+		rs1, rs2 string
+		alpha    []string
+	}
+	pairs := []pair{
+		{"ab", "\n+", []string{"a", "b", "\n", "y"}},
+		{"ab", "b+", []string{"a", "b", "y"}},
+		{"é", "x+", []string{"\xc3", "\xa9", "x", "y"}},
+		{"x+", "\n\n+", []string{"x", "\n", "y"}},
+		{"\n+", "ab", []string{"a", "b", "\n"}},
+		{"a*b", "[;,]+", []string{"a", "b", ";", ","}},
+		{"[;,]", "\r?\n", []string{";", "\r", "\n", "y"}},
+		{"\n", "x+", []string{"x", "\n", "y"}},
+		{";", "x+", []string{"x", ";", "y"}},
+		{"", "x+", []string{"x", "\n", "y"}},
+		{"x+", "", []string{"x", "\n", "y"}},
+		{"x+", "\n", []string{"x", "\n", "y"}},
+	}
+	ml := maxLen - 1
+	for _, p := range pairs {
+		for n := 2; n <= ml; n++ {
+			enumStrings(p.alpha, n, func(in string) {
+				if !c.Mine() || c.Expired() {
+					return
+				}
+				c.Add("states", 1)
+				nmasks := uint64(1) << uint(len(in)-1)
+				for at := 1; at <= 2; at++ {
+					ref := "\x00unset"
+					for mask := uint64(0); mask < nmasks; mask++ {
+						cs := c07Case{RS: p.rs1, RS2: p.rs2, At: at, Input: in, Mask: mask, EOFStyle: int(mask & 1), EmptyAt: -1, ErrAt: -1, Prog: 5, Kind: "change"}
+						c07Check(c, r, cs, &ref)
+						c.Add("transitions", 1)
+					}
+				}
+			})
+		}
+	}
 }
 
 // c07Long: longer inputs — every single split point and 1-byte delivery; and
@@ -583,7 +644,7 @@ func init() {
 		ID:    "C07",
 		Level: "model_checking",
 		Rule: "deviation-bounded environment exploration: every input string up to the length bound over a per-RS alphabet x every chunking (2^(n-1)) x 2 EOF styles, " +
-			"plus getline / getline var on stdin and cmd | getline / cmd | getline var on a command's output pipe (inputs up to 4 symbols, every chunking), one empty read / one read error at every position, single split points of longer inputs and 64KiB buffer-edge inputs; " +
+			"plus RS assigned by the program after record 1 or 2 (12 pairs of old/new RS, every chunking, differential oracle only), getline / getline var on stdin and cmd | getline / cmd | getline var on a command's output pipe (inputs up to 4 symbols, every chunking), one empty read / one read error at every position, single split points of longer inputs and 64KiB buffer-edge inputs; " +
 			"a state is one (RS,input), a transition one delivery; distinct = distinct observed record sequences",
 		Assumptions: []string{
 			"bufio.Scanner depends only on the sequence of (n, err) results of Read, so enumerating chunk sequences enumerates pipe timings",
